@@ -184,17 +184,22 @@ def _handle_cc(report, r, nm, fam, cc, replayer, meta):
                    cc["runs"], "all admissible tuples" if cc.get("whole_space") else "seeded sample", cc.get("space", 0), cc["n_bad"]),
                cc.get("wall_s", 0), cc["runs"], "engine-validation")
     if not cc["n_bad"] and cc.get("first") is not None and not meta.get("no_replayer_selftest"):
-        # replayer self-test: on arguments for which the harness function holds, the replay on the real code must run
-        # through and must not report a violation (a replayer that crashes or cries wolf would only show when needed)
-        args = tuple(cc["first"])
-        try:
-            ok, record = replayer(r["name"], args, {}, meta)
-            if ok and not meta.get("known_finding"):
-                report.harness_error("replayer of %s reports a violation for %r although the harness function holds there: %s" % (
-                    nm, args, json.dumps(record, default=str)[:400]))
-        except Exception as e:  # noqa
-            report.harness_error("replayer self-test of %s%r crashed: %s: %s\n%s" % (
-                nm, args, type(e).__name__, e, traceback.format_exc()[-500:]))
+        # stub validation + replayer self-test: on arguments for which the (stubbed) harness function holds, the replay on the
+        # REAL code must run through and must not report a violation either - a disagreement means a stub or the replayer
+        # misrepresents the code (it would otherwise only show on the day a counterexample needs replaying)
+        tuples = [tuple(t) for t in (cc.get("sample") or [cc["first"]])]
+        done = 0
+        for args in tuples:
+            try:
+                ok, record = replayer(r["name"], args, {}, meta)
+                done += 1
+                if ok and not meta.get("known_finding"):
+                    report.harness_error("replayer of %s reports a violation for %r although the harness function holds there: %s" % (
+                        nm, args, json.dumps(record, default=str)[:400]))
+            except Exception as e:  # noqa
+                report.harness_error("replayer self-test of %s%r crashed: %s: %s\n%s" % (
+                    nm, args, type(e).__name__, e, traceback.format_exc()[-500:]))
+        report.conditions[-1]["detail"] += "; %d of them also replayed on the real code, no disagreement" % done
     reproduced = 0
     for b in cc["bad"][:4]:
         args = tuple(b["args"])
